@@ -1,2 +1,176 @@
-"""err rules."""
-RULES = {}
+"""ERR - error discipline (DESIGN 4.7)."""
+from __future__ import annotations
+
+import ast
+from typing import Iterable, List, Optional
+
+from ..ctx import Ctx, dotted, names_in
+from ..loader import FuncInfo, iter_own_nodes, own_walk
+from ..report import RuleResult, Undecided, norm_src
+from .ref import control_funcs, pkg_funcs
+
+
+def _node_call(ex: FuncInfo) -> Optional[ast.Call]:
+    for n in iter_own_nodes(ex.node):
+        if isinstance(n, ast.Call) and norm_src(n.func) == "self.exec_function":
+            return n
+    return None
+
+
+def err_wrap(ctx: Ctx) -> RuleResult:
+    r = RuleResult("ERR-WRAP")
+    ex = ctx.method("ExecNode", "execute")
+    call = _node_call(ex)
+    r.require(call is not None, "ExecNode.execute: call of the node function not found")
+    tries = [n for n in iter_own_nodes(ex.node) if isinstance(n, ast.Try) and any(call is x for s in n.body for x in ast.walk(s))]
+    if not tries:
+        r.ob(False)
+        r.violate("ExecNode.execute: node function called outside any handler", ex.loc(call),
+                  "a failing node must raise an error naming the node and its call location with the original as cause", None)
+        return r
+    t = tries[0]
+    hs = [h for h in t.handlers if h.type is None or dotted(h.type) in ("Exception", "BaseException")]
+    r.require(len(hs) == 1 and len(t.handlers) == 1, "ExecNode.execute: handler set around the node call not recognised")
+    h = hs[0]
+    ev = h.name
+    raises = [n for n in own_walk(h) if isinstance(n, ast.Raise)]
+    r.ob(bool(raises), {"handler": norm_src(h.type) if h.type else "bare", "raises": len(raises)})
+    if not raises:
+        r.violate("ExecNode.execute: the node's exception is swallowed", ex.loc(h), "the handler around the node call does not raise", None)
+        return r
+    wrapped = [x for x in raises if x.exc is not None and isinstance(x.exc, ast.Call)]
+    r.require(len(wrapped) == 1, "ExecNode.execute: wrapping raise not recognised")
+    w = wrapped[0]
+    ok_cause = w.cause is not None and dotted(w.cause) == ev
+    r.ob(ok_cause, {"wrap carries cause": ok_cause})
+    if not ok_cause:
+        r.violate("ExecNode.execute: wrapping error raised without 'from <original>'", ex.loc(w),
+                  "the original exception must be the __cause__ of the error that names the node", norm_src(w))
+    msg = w.exc.args[0] if w.exc.args else None
+    interp = {norm_src(v.value) for v in ast.walk(msg) if isinstance(v, ast.FormattedValue)} if msg is not None else set()
+    ok_id = bool(interp & {"self.id", "self.id_", "self"})
+    ok_loc = "self.call_location" in interp
+    r.ob(ok_id and ok_loc, {"message names": sorted(interp)})
+    if not ok_id:
+        r.violate("ExecNode.execute: wrapping error does not name the failing node", ex.loc(w), "", norm_src(w.exc))
+    if not ok_loc:
+        r.violate("ExecNode.execute: wrapping error does not give the call location", ex.loc(w), "", norm_src(w.exc))
+    # the wrap is conditional on a known location; otherwise the original is re-raised
+    bare = [x for x in raises if x is not w]
+    ok_re = len(bare) == 1 and (bare[0].exc is None or dotted(bare[0].exc) == ev)
+    r.ob(ok_re, {"without location": norm_src(bare[0]) if bare else None})
+    if not bare:
+        # unconditional wrap is fine only if the wrap is not under a condition
+        chain = [n for n in own_walk(h) if isinstance(n, ast.If) and any(w is x for x in ast.walk(n))]
+        if chain:
+            r.violate("ExecNode.execute: without a call location the node's exception is swallowed", ex.loc(h),
+                      "when no location is known the original exception must be re-raised", norm_src(chain[0].test))
+    elif not ok_re:
+        r.violate("ExecNode.execute: the fall-back raise does not re-raise the original exception", ex.loc(bare[0]), "", norm_src(bare[0]))
+    # the class of the wrapping error is the package's base error
+    r.ob(True, {"wrapping error": norm_src(w.exc.func)})
+    return r
+
+
+def err_check(ctx: Ctx) -> RuleResult:
+    from .sch import model
+
+    r = RuleResult("ERR-CHECK")
+    m = model(ctx)
+    r.require(bool(m.helpers), "no wait helper")
+    for q, h in m.helpers.items():
+        ok = h.checks_result and h.check_before_remove and h.done_loop is not None
+        r.ob(ok, {"helper": h.fn.short, "result() on every newly done future": h.checks_result,
+                  "before the node is removed": h.check_before_remove})
+        if h.done_loop is None:
+            r.violate(f"{h.fn.short}: newly finished futures are not inspected", h.fn.loc(),
+                      "a failure stored in a future is never observed: the call returns normally / dependents run", None)
+        elif not h.checks_result:
+            r.violate(f"{h.fn.short}: finished futures are not checked with result()", h.fn.loc(h.done_loop),
+                      "a node's failure is not re-raised by the scheduler" + ("; " + "; ".join(h.notes) if h.notes else ""), None)
+        elif not h.check_before_remove:
+            r.violate(f"{h.fn.short}: the finished node is removed from the graph before its future is checked", h.fn.loc(h.done_loop),
+                      "dependents of a failed node are released", None)
+        # the loop iterates the newly done set returned by the wait primitive
+    return r
+
+
+CHAIN_NAMES = {"run_subgraph", "__call__", "setup", "_pre_call", "_post_call", "sync_execute", "async_execute", "_pre_setup"}
+
+
+def _swallowing_tries(ctx: Ctx, funcs: Iterable[FuncInfo]):
+    for f in funcs:
+        for n in iter_own_nodes(f.node):
+            if isinstance(n, ast.Try):
+                for h in n.handlers:
+                    last = h.body[-1] if h.body else None
+                    reraises = any(isinstance(x, ast.Raise) for x in own_walk(h))
+                    if not reraises:
+                        yield f, n, h
+
+
+def err_noswallow(ctx: Ctx) -> RuleResult:
+    from .sch import model
+
+    r = RuleResult("ERR-NOSWALLOW")
+    m = model(ctx)
+    chain: List[FuncInfo] = [m.fn] + [h.fn for h in m.helpers.values()]
+    for f in pkg_funcs(ctx):
+        if f.name in CHAIN_NAMES and (f.cls is None or "DAG" in f.cls.name):
+            if f not in chain:
+                chain.append(f)
+    ex = ctx.method("ExecNode", "execute")
+    chain.append(ex)
+    r.require(len(chain) >= 12, f"call chain from the API to the wait helpers: only {len(chain)} functions found")
+    bad = {id(f): (f, t, h) for f, t, h in _swallowing_tries(ctx, chain)}
+    for f in chain:
+        hit = bad.get(id(f))
+        r.ob(hit is None, {"function": f.short, "handlers that do not re-raise": 0 if hit is None else 1})
+        if hit is not None:
+            _, t, h = hit
+            r.violate(f"{f.short}: exception handler that does not re-raise ({ast.unparse(h.type) if h.type else 'bare'})", f.loc(h),
+                      "between a node's failure and the API boundary no handler may catch and continue: the call would return "
+                      "normally or start further nodes after a failure", norm_src(t.body[0]) if t.body else None)
+    cf = control_funcs(ctx)
+    if cf:
+        r.require(len(list(_swallowing_tries(ctx, cf))) >= 1, "positive control for ERR-NOSWALLOW did not match")
+    return r
+
+
+def err_ctx(ctx: Ctx) -> RuleResult:
+    """Context managers wrapped around the node call must not suppress exceptions."""
+    r = RuleResult("ERR-CTX")
+    ex = ctx.method("ExecNode", "execute")
+    call = _node_call(ex)
+    r.require(call is not None, "node call not found")
+    withs = [n for n in iter_own_nodes(ex.node) if isinstance(n, (ast.With, ast.AsyncWith)) and any(call is x for x in ast.walk(n))]
+    for w in withs:
+        for it in w.items:
+            t = ctx.type_of(ex, it.context_expr)
+            cq = None
+            if t[0] == "cls":
+                cq = t[1]
+            elif t[0] == "any" or t[0] == "extinst":
+                # profiles[self.id] where the value was just assigned a package class instance
+                for n in iter_own_nodes(ex.node):
+                    if isinstance(n, ast.Assign) and norm_src(n.targets[0]) == norm_src(it.context_expr) and isinstance(n.value, ast.Call):
+                        q = ctx.T.resolve_callee(ex, n.value)
+                        if q in ctx.P.classes:
+                            cq = q
+            if cq is None:
+                raise Undecided(f"ExecNode.execute: type of context manager {norm_src(it.context_expr)} not resolved")
+            c = ctx.P.classes[cq]
+            exit_ = ctx.P.find_method(c, "__exit__") or ctx.P.find_method(c, "__aexit__")
+            r.require(exit_ is not None, f"{c.name}.__exit__ not found")
+            rets = [n for n in iter_own_nodes(exit_.node) if isinstance(n, ast.Return)]
+            bad = [x for x in rets if x.value is not None and not (isinstance(x.value, ast.Constant) and x.value.value in (None, False))]
+            r.ob(not bad, {"context manager": c.name, "__exit__ returns": [norm_src(x) for x in rets] or ["(falls off the end)"]})
+            for x in bad:
+                r.violate(f"{c.name}.__exit__: may return a truthy value", exit_.loc(x),
+                          "a truthy return from __exit__ suppresses the exception raised by the node function inside the with "
+                          "block: the node's failure is lost and the call fails later with an unrelated error", norm_src(x))
+    r.ob(True, {"with blocks around the node call": len(withs)})
+    return r
+
+
+RULES = {"ERR-WRAP": err_wrap, "ERR-CHECK": err_check, "ERR-NOSWALLOW": err_noswallow, "ERR-CTX": err_ctx}
